@@ -20,8 +20,17 @@ for s in $seeds; do
     (cd $wt && git checkout -q -- . && git reset -q --hard)
   done
   if [ -z "$applied" ]; then echo -e "$s\t$id\tPATCH-DOES-NOT-APPLY" >> $out; git -C /repo worktree remove --force $wt; rm -rf $wt; continue; fi
+  # does the demonstration still fail with the change (on this HEAD)?
+  demo=$(ls $root/seeded/$s/demo*_test.go 2>/dev/null | head -1); demores="no-demo"
+  if [ -n "$demo" ]; then
+    pkg=$(grep -m1 '^package ' "$demo" | awk '{print $2}')
+    case "$pkg" in textwire|textwire_test) dest=. ;; *) dest=${pkg%_test} ;; esac
+    cp "$demo" $wt/$dest/zz_demo_test.go
+    if (cd $wt && GOFLAGS=-mod=mod GOPROXY=off GOSUMDB=off GOTOOLCHAIN=local timeout 600 go test -vet=off -count=1 -run 'Demo|C[0-9][0-9]' ./$dest >/dev/null 2>&1); then demores="demo-passes(change-is-harmless-now)"; else demores="demo-fails"; fi
+    rm -f $wt/$dest/zz_demo_test.go
+  fi
   o=$(VERIF_REPO=$wt VERIF_OUT=/tmp/ownout.$$ VERIF_WALL=900 ./run.sh $id $tier 2>&1); rc=$?
   v=$(echo "$o" | grep -c '^VIOLATION')
-  echo -e "$s\t$id\trc=$rc\tviolations=$v\t$applied" >> $out
+  echo -e "$s\t$id\trc=$rc\tviolations=$v\t$applied\t$demores" >> $out
   git -C /repo worktree remove --force $wt; rm -rf $wt /tmp/ownout.$$
 done
